@@ -19,7 +19,8 @@ RULE = ("code lines built from token sequences (identifiers, operators, numbers,
         "x indentation levels 0-8 x widths 12-100 x both targets' pad functions; Python lines are valid "
         "statements that are re-parsed wrapped/unwrapped inside `if 1:` nests of the right depth; Fortran "
         "statements are compiled and executed wrapped/unwrapped in batches; plus every line emitted by the real "
-        "Python and Fortran generators for sample programs (judged by the same contract). A quote glued to a "
+        "Python and Fortran generators for sample programs incl. long loop and guard headers (judged by the same "
+        "contract). A quote glued to a "
         "preceding character (f(\"a  b\")) is not a token sequence for the wrapper's lexer and lives in a "
         "separate, non-deciding class. distinct = (target, line, level, width); non-trivial = >=3 tokens and "
         "the result has >=2 lines")
